@@ -341,6 +341,7 @@ func summarize(prop, tier string, seed int, pc *PropCfg, reps []*FuncReport, x *
 	abstr := map[string]int{}
 	inl := map[string]bool{}
 	assumed := map[string]bool{}
+	objinv := map[string]bool{}
 	var degraded, notes, errs []string
 	replayDir := filepath.Join(verif, "out", "replay", prop)
 	var allNames []string
@@ -358,6 +359,9 @@ func summarize(prop, tier string, seed int, pc *PropCfg, reps []*FuncReport, x *
 		}
 		for _, k := range r.Assumed {
 			assumed[k] = true
+		}
+		for _, k := range r.ObjInvs {
+			objinv[k] = true
 		}
 		degraded = append(degraded, r.Degraded...)
 		notes = append(notes, r.Notes...)
@@ -497,6 +501,14 @@ func summarize(prop, tier string, seed int, pc *PropCfg, reps []*FuncReport, x *
 		"the SSA construction of golang.org/x/tools v0.29.0 and the solvers z3 4.8.12 / z3 5.1.0 / cvc5 1.0 are trusted")
 	for _, a := range asL {
 		assumptions = append(assumptions, "assumed contract (not verified here): "+a)
+	}
+	var oiL []string
+	for k := range objinv {
+		oiL = append(oiL, k)
+	}
+	sort.Strings(oiL)
+	for _, a := range oiL {
+		assumptions = append(assumptions, "object invariant assumed at entry, not checked at call sites: "+a)
 	}
 	var abstrL []string
 	for k, v := range abstr {
